@@ -407,10 +407,14 @@ class Registry:
                 elif n == 'at_stmt':
                     text = ast.literal_eval(call.args[0])
                     uses = []
+                    checks = []
                     for kw in call.keywords:
                         if kw.arg == 'use':
                             uses = kw.value.elts if isinstance(kw.value, (ast.List, ast.Tuple)) else [kw.value]
-                    c.stmt_hints.append((ast.unparse(ast.parse(text).body[0]), uses))
+                        elif kw.arg == 'check':
+                            checks = kw.value.elts if isinstance(kw.value, (ast.List, ast.Tuple)) else [kw.value]
+                    c.stmt_hints.append((text if text.startswith('@') else ast.unparse(ast.parse(text).body[0]),
+                                         uses, checks))
                 elif n == 'loop':
                     k = ast.literal_eval(call.args[0])
                     ls = c.loops.setdefault(k, LoopSpec())
@@ -440,6 +444,9 @@ class Registry:
                     if self.instantiable(c):
                         out.append(c)
         return out
+
+    def is_abstract_class(self, cls):
+        return not self.instantiable(cls)
 
     def instantiable(self, cls):
         """heuristic from the source: a class is abstract when it is only used as a base (it has subclasses in the
